@@ -23,6 +23,8 @@
 #include <kernel/lafem/tuple_vector.hpp>
 #include <kernel/lafem/tuple_mirror.hpp>
 #include <kernel/global/gate.hpp>
+#include <control/asm/gate_asm.hpp>
+#include <set>
 
 namespace c13
 {
@@ -169,6 +171,25 @@ namespace c13
           }
           TV tmpl; tmpl.template at<IB>() = VB(nd[r]); tmpl.template at<IS>() = V(nd1[r]);
           gate.compile(std::move(tmpl)); tfreq.push_back(gate.get_freqs().clone()); tl.push_back(std::move(v));
+          // the same system gate assembled the way the control layer does it: component gates that hold only the NON-EMPTY mirrors (asm_gate skips
+          // empty ones, so the components may have different neighbour sets), combined by Control::Asm::build_gate_tuple
+          {
+            struct FakeComm : FEAT::Dist::Comm { FakeComm(int rk, int n) : FEAT::Dist::Comm() { this->_rank = rk; this->_size = n; } };   // push() only asks the communicator for its size; nothing is sent
+            const int fr_ = int(r), fn_ = int(R); FakeComm fcomm{fr_, fn_}; Global::Gate<VB, Mi> gb; Global::Gate<V, Mi> gs; gb.set_comm(&fcomm); gs.set_comm(&fcomm); std::set<int> want;
+            for(int s : P.comm[r])
+            {
+              const PartOf<Shape_>* hp = P.patch[r]->get_halo(s); Mi m0, m1; Assembly::MirrorAssembler::assemble_mirror(m0, sp, *hp); Assembly::MirrorAssembler::assemble_mirror(m1, sp1, *hp);
+              if(!m0.empty()) { gb._ranks.push_back(s); gb._mirrors.push_back(std::move(m0)); want.insert(s); } if(!m1.empty()) { gs._ranks.push_back(s); gs._mirrors.push_back(std::move(m1)); want.insert(s); }
+            }
+            if(gb._ranks.size() != gs._ranks.size()) c.label("tuple:component-neighbours-differ");
+            gb.compile(VB(nd[r])); gs.compile(V(nd1[r]));
+            Global::Gate<TV, TM> g2; if constexpr(BF) FEAT::Control::Asm::build_gate_tuple(g2, gb, gs); else FEAT::Control::Asm::build_gate_tuple(g2, gs, gb);
+            const std::vector<int> rk2 = g2.get_ranks(); std::set<int> have(rk2.begin(), rk2.end());
+            VF_CHECK(have == want && have.size() == rk2.size(), "build_gate_tuple: patch " << r << " system gate has " << rk2.size() << " neighbours (" << have.size() << " distinct), the union of the component gates has " << want.size());
+            const DT* fa = g2.get_freqs().template at<IB>().template elements<FEAT::LAFEM::Perspective::pod>(); const DT* fb = tfreq.back().template at<IB>().template elements<FEAT::LAFEM::Perspective::pod>();
+            for(Index k = 0; k < 2 * nd[r]; ++k) VF_CHECK(fabsl((long double)fa[k] - (long double)fb[k]) <= 4e-16L, "build_gate_tuple: patch " << r << " blocked component entry " << k << " frequency " << fa[k] << ", gate with all mirrors " << fb[k]);
+            for(Index k = 0; k < nd1[r]; ++k) VF_CHECK(fabsl((long double)g2.get_freqs().template at<IS>().elements()[k] - (long double)tfreq.back().template at<IS>().elements()[k]) <= 4e-16L, "build_gate_tuple: patch " << r << " scalar component dof " << k << " frequency " << g2.get_freqs().template at<IS>().elements()[k] << ", gate with all mirrors " << tfreq.back().template at<IS>().elements()[k]);
+          }
         }
         for(size_t r = 0; r < R; ++r)
         {
